@@ -499,7 +499,7 @@ def run(ck):
         rounds = 1
     elif ck.quick:
         want = [("vdb", "install", False, False, False), ("vdb", "uninstall", True, True, True), ("vdb", "replace_same", True, False, True),
-                ("vdb", "replace_diff", True, True, False), ("bin", "install", False, False, False), ("bin", "replace_same", True, True, True),
+                ("bin", "install", False, False, False), ("bin", "replace_same", True, True, True),
                 ("bin", "uninstall", True, False, False)]
         shapes = [uniq[w] for w in want]
         rounds = 1
@@ -602,7 +602,7 @@ def run(ck):
 
             root = os.path.join(sdir, "root")
             evs, info = crash_scenario(tid, root, setup, op_fn, reader, units=units, views=views, frame=[kind],
-                                       unseen=unseen, max_cuts=ck.pick(24, None))
+                                       unseen=unseen, max_cuts=ck.pick(16, None))
             fs_events += evs
             srccore = pkg_digest(newpkg, core=True) if newpf else "-"
             base = dict(op=op, oldcpv=f"{CAT}/{oldpf}" if oldpf else "-", newcpv=f"{CAT}/{newpf}" if newpf else "-", srccore=srccore,
